@@ -720,6 +720,8 @@ func main() {
 				out.Flush()
 			case "graph":
 				graphCase(line, out)
+			case "yaml":
+				yamlCaseRun(line, out)
 			}
 		}
 		if err != nil {
